@@ -140,7 +140,22 @@ pub fn c19f_hidden(i: &mut In, _p: &[i64]) {
   let r = match x.get_hide_heaven_stem_residual() { Some(s) => { let k = s.get_index() as i64; std::mem::forget(s); k } None => -1 };
   assert!(m == HIDE_MIDDLE[b as usize]);
   assert!(r == HIDE_RESIDUAL[b as usize]);
+  // the list form: main, then middle and residual where they exist, each tagged with its kind
+  let l = x.get_hide_heaven_stems();
+  let n_exp = 1 + if HIDE_MIDDLE[b as usize] >= 0 { 1 } else { 0 } + if HIDE_RESIDUAL[b as usize] >= 0 { 1 } else { 0 };
+  assert!(l.len() == n_exp);
+  assert!(l[0].get_heaven_stem().get_index() as i64 == HIDE_MAIN[b as usize] && l[0].get_type() == tyme4rs::tyme::enums::HideHeavenStemType::MAIN);
+  let mut k = 1;
+  if HIDE_MIDDLE[b as usize] >= 0 {
+    assert!(l[k].get_heaven_stem().get_index() as i64 == HIDE_MIDDLE[b as usize] && l[k].get_type() == tyme4rs::tyme::enums::HideHeavenStemType::MIDDLE);
+    k += 1;
+  }
+  if HIDE_RESIDUAL[b as usize] >= 0 {
+    assert!(l[k].get_heaven_stem().get_index() as i64 == HIDE_RESIDUAL[b as usize] && l[k].get_type() == tyme4rs::tyme::enums::HideHeavenStemType::RESIDUAL);
+  }
   witness!(m == -1 && r == -1, "a branch with one hidden stem");
+  witness!(m >= 0 && r == -1, "a branch with a middle but no residual stem");
+  std::mem::forget(l);
   std::mem::forget(x);
 }
 
@@ -257,6 +272,10 @@ pub fn c19k_stars(i: &mut In, _p: &[i64]) {
   assert!(s.get_seven_star().get_index() as i64 == md(k + 4, 7));
   assert!(s.get_zone().get_index() as i64 == k / 7);
   assert!(s.get_animal().get_index() as i64 == k);
+  // nine fields (九野): 钧天 角亢氐, 苍天 房心尾, 变天 箕斗牛, 玄天 女虚危室, 幽天 壁奎娄, 颢天 胃昴毕, 朱天 觜参井, 炎天 鬼柳星, 阳天 张翼轸
+  // (field indices: 玄0 朱1 苍2 阳3 钧4 幽5 颢6 变7 炎8)
+  let field = if k < 3 { 4 } else if k < 6 { 2 } else if k < 9 { 7 } else if k < 13 { 0 } else if k < 16 { 5 } else if k < 19 { 6 } else if k < 22 { 1 } else if k < 25 { 8 } else { 3 };
+  assert!(s.get_land().get_index() as i64 == field);
   std::mem::forget(s);
   let n = i.int(0, 8);
   let ns = NineStar::from_index(n as isize);
